@@ -463,13 +463,19 @@ def emit_check_violations(T, oRules):
     lAll = oRules.oVhdlFile.lAllObjects
     crs = [i for i, t in enumerate(lAll) if isinstance(t, parser.carriage_return)]
     out = []
+    pos = {}
+    for i, t in enumerate(lAll):
+        pos.setdefault(id(t), i)
     for oRule in oRules.rules:
         for v in oRule.violations:
+            # first / last line of the violation's own tokens, located by identity (the recorded start index is not trusted)
             try:
-                s0 = v.oTokens.iStartIndex
-                n = len([t for t in v.oTokens.lTokens if not _bof(t)])
-                lo = bisect.bisect_left(crs, s0) + 1 if s0 is not None else int(v.get_line_number() or 0)
-                hi = bisect.bisect_left(crs, max(s0, s0 + n - 1)) + 1 if s0 is not None else lo
+                idx = [pos[id(t)] for t in v.oTokens.lTokens if id(t) in pos]
+                if idx:
+                    lo = bisect.bisect_left(crs, min(idx)) + 1
+                    hi = bisect.bisect_left(crs, max(idx)) + 1
+                else:
+                    lo = hi = int(v.get_line_number() or 0)
             except Exception:
                 lo = hi = int(v.get_line_number() or 0)
             out.append({"rule": oRule.unique_id, "line": int(v.get_line_number() or 0), "lo": lo, "hi": hi, "sol": str(v.get_solution()),
